@@ -34,6 +34,7 @@ mod negamax {
         unsafe {
             assert!(!ABORTED, "no further search after the first Err");
             assert!(alpha < beta, "negamax precondition: non-empty window");
+            assert!(alpha.0 <= 32000 && beta.0 >= -32000, "negamax precondition: root window bounds (P of C04.negamax.*)");
             assert!(plies == 0);
             NEGAMAX_CALLS += 1;
             LAST_ALPHA = alpha.0;
